@@ -26,7 +26,7 @@ LEVEL = "fault_enumeration"
 RULE = ("fate vectors: every attempt of a payload is delivered+ACKed / packet lost / ACK lost; enumerated completely "
         "for arc<=2 (quick) or arc<=3 (thorough) with force_retry<=1 (all 2^(T+1)-1 prefixes-of-failures vectors over "
         "T=(1+arc)(1+force_retry) attempts), plus for every arc 0..15 'first success at attempt k' and 'all fail'; beyond "
-        "that seeded histories of up to 6 send/send(list)/resend calls with seeded loss ordinals, blackouts, context re-entry (power down/up between calls), targeted stale-ACK-payload histories, bus speeds up to 1.5 ms per transaction, peer "
+        "that seeded histories of up to 6 send/send(list)/resend calls (with the streaming idiom - write(write_only=True) until the FIFO refuses, CE by hand - in between: a filled FIFO before send(), a burst whose head failed before resend()) with seeded loss ordinals, blackouts, context re-entry (power down/up between calls), targeted stale-ACK-payload histories, bus speeds up to 1.5 ms per transaction, peer "
         "deaf/absent/full, ACK payloads, ask_no_ack, auto-ack off, every ard and data rate. Non-trivial: at least one "
         "transmit cycle ran; distinct = distinct abstract event sequences")
 ASSUMPTIONS = ["chip/air model decisions M1 (STATUS is clocked out before a command takes effect), M2, M3, M4, M6, M7, M9",
@@ -189,6 +189,29 @@ def make(i, base_seed, tier, lite_tx=False, lite_rx=False):
             if k_ and ops[k_ - 1]["op"] == "blackout" and ops[k_ - 1]["on"]:
                 continue
             ops.insert(k_, {"op": "listen_excursion", "rx1": xr.random() < 0.5})
+    if not (lite_tx or lite_rx) and mode in ("auto", "ackpl") and scn["peer"] == "listening" and xr.random() < 0.2:
+        # the documented streaming idiom between send() calls (examples/nrf24l01_stream_test.py): write(write_only=True) until the
+        # TX FIFO refuses, CE raised by hand.  (fill_send) the application gives the burst up and calls send(): only send()'s own
+        # payload goes out, and it is reported truthfully;  (burst_resend) the burst meets an outage, its first payload ends in
+        # MAX_RT, the medium heals and resend() must re-transmit exactly that payload
+        pl = lambda: hx(common.rand_payload(xr, xr.randint(1, 32)))
+        k_ = xr.randrange(len(ops) + 1)
+        while k_ and ops[k_ - 1]["op"] == "blackout" and ops[k_ - 1]["on"]:
+            k_ -= 1
+        if xr.random() < 0.5:
+            ops[k_:k_] = [{"op": "fill", "bufs": [pl() for _ in range(4)]},
+                          {"op": "send", "buf": pl(), "fr": xr.choice([0, 0, 1]), "so": xr.random() < 0.3, "na": False}]
+        else:
+            ops[k_:k_] = [{"op": "burst_resend", "bufs": [pl() for _ in range(xr.choice([1, 2, 3, 3]))], "so": xr.random() < 0.3}]
+    if not (lite_tx or lite_rx) and mode == "ackpl" and xr.random() < 0.15:
+        # role excursion of a transmitter that also *receives on pipe 0*: it arms an ACK payload while listening, nobody collects it,
+        # it comes back to TX mode, names its target again and sends - only the payload of that send() may go out
+        pl = lambda: hx(common.rand_payload(xr, xr.randint(1, 32)))
+        k_ = xr.randrange(len(ops) + 1)
+        while k_ and ops[k_ - 1]["op"] == "blackout" and ops[k_ - 1]["on"]:
+            k_ -= 1
+        ops[k_:k_] = [{"op": "listen_excursion", "rx0": True, "arm": [pl() for _ in range(xr.randint(1, 2))]},
+                      {"op": "send", "buf": pl(), "fr": 0, "so": xr.random() < 0.3, "na": False}]
     if lite_tx and xr.random() < 0.2:
         # rf24_lite wakes a sleeping radio by itself when it transmits (its write() switches to TX mode, power included)
         # (only right before a send(): resend() re-uses the payload in the FIFO and does not go through write())
@@ -377,10 +400,87 @@ def _run(scn, w, res):
             sim.log("call", "T", "listen_excursion")
             if op.get("rx1"):
                 tx.open_rx_pipe(1, b"\x5a\x5a\x5a\x5a\x5a"[: cfg["aw"]])
+            if op.get("rx0"):
+                tx.open_rx_pipe(0, b"\xa5\x5a\xa5\x5a\xa5"[: cfg["aw"]])
             tx.listen = True
+            for b in op.get("arm", ()):
+                tx.load_ack(unhx(b), 0)
             sim.advance(int(0.7 * MS))
             tx.listen = False
+            if op.get("rx0"):
+                # back in TX mode the application gives up its reading pipe 0 and names its target again
+                tx.close_rx_pipe(0)
+                tx.open_tx_pipe(bytes(rt.a[0x10][: cfg["aw"]]))
+                sim.count("listen_excursion_on_pipe0_with_unused_ack_payload")
             sim.count("listen_excursion")
+            continue
+        if op["op"] == "fill":
+            # streaming idiom: fill the TX FIFO without starting a transmission, until write() refuses
+            sim.log("call", "T", "fill")
+            tx.ce_pin = False
+            for b in op["bufs"]:
+                if not tx.write(unhx(b), write_only=True):
+                    break
+            sim.count("tx_fifo_filled_by_streaming_writes")
+            continue
+        if op["op"] == "burst_resend":
+            if w.air.blackout:
+                continue
+            sim.log("call", "T", "burst_resend")
+            tx.flush_tx()
+            tx.ce_pin = False
+            w.air.blackout = True
+            bufs = [unhx(b) for b in op["bufs"]]
+            for b in bufs:
+                tx.write(b, write_only=True)
+            c0 = len(rt.cycles)
+            tx.ce_pin = True
+            for _ in range(400):
+                sim.advance(MS)
+                if len(rt.cycles) > c0 and not rt.txing:
+                    break
+            w.air.blackout = False
+            head = rt.cycles[c0] if len(rt.cycles) > c0 else None
+            if head is None or head["result"] != "max_rt" or rt.txing or len(rt.tx_fifo) != len(bufs):
+                tx.ce_pin = False
+                tx.flush_tx()
+                tx.clear_status_flags()
+                continue
+            tx.update()
+            c1, a1 = len(rt.cycles), len(w.air.trace)
+            res.last_call = "resend (after a streamed burst)"
+            ret = tx.resend(send_only=op["so"])
+            sim.log("ret", "T", repr(ret))
+            mine = rt.cycles[c1:]
+            sim.count("resend_after_streamed_burst")
+            res.nontrivial = True
+            if not mine:
+                res.add("isolation", {"kind": "resend_did_not_retransmit", "fifo": len(bufs)},
+                        "resend() returned %r and started no transmit cycle although the failed payload %s heads a TX FIFO of %d payload(s)" % (ret, hx(bufs[0])[:16], len(bufs)))
+            elif mine[0]["data"] != bufs[0] or mine[0]["pid"] != head["pid"]:
+                res.add("isolation", {"kind": "resend_other_payload"},
+                        "resend() transmitted %s pid %d, the failed payload was %s pid %d" % (hx(mine[0]["data"])[:16], mine[0]["pid"], hx(bufs[0])[:16], head["pid"]))
+            elif mine[0]["result"] is None:
+                res.add("truth", {"kind": "returned_while_transmitting", "op": "resend"}, "resend() returned %r while the re-transmission was still in progress" % (ret,))
+            elif bool(ret) != (mine[0]["result"] == "tx_ds") and not (ret is None and mine[0]["result"] == "tx_ds"):
+                res.add("truth", {"kind": "false_negative" if mine[0]["result"] == "tx_ds" else "false_positive", "op": "resend", "fr": 0},
+                        "resend() returned %r but the re-transmission of the failed payload ended in %s" % (ret, mine[0]["result"]))
+            if mine and mine[0]["ackpl"] is not None:
+                got_ackpl.append(mine[0]["ackpl"])
+            # the rest of the burst goes out on its own (CE stays high); let it finish, then tidy up
+            for _ in range(400):
+                if not rt.txing and (not rt.tx_fifo or rt.flags & 0x10):
+                    break
+                sim.advance(MS)
+            for cy in rt.cycles[c1 + 1:]:
+                if cy["ackpl"] is not None:
+                    got_ackpl.append(cy["ackpl"])
+            tx.ce_pin = False
+            tx.flush_tx()
+            tx.clear_status_flags()
+            if not op["so"]:
+                tx.flush_rx()
+            failed = None
             continue
         if op["op"] == "power_off":
             if lite_tx and not w.air.blackout:
